@@ -258,6 +258,19 @@ def run_generated(cx, spec, rng):
                     cx.witness(f"generated.proxy_info_not_copied.{tkey}", {"code": code, "gen": gen,
                                                                            "cls": type(ans).__name__,
                                                                            "n": nproxy}, rp)
+                # where the encoded answer lacks them (untyped commands, see known findings), the answer *object*
+                # at least has to carry what the request carried: a second, independent way of losing them
+                if judge_px and nproxy and canon(got_px, L) != canon(px, L):
+                    v = getattr(ans, "proxy_info", None)
+                    have = len(v) if isinstance(v, (list, tuple)) else (0 if v is None else 1)
+                    if have != nproxy:
+                        cx.witness(f"generated.proxy_info_dropped_entirely.{tkey}",
+                                   {"code": code, "gen": gen, "cls": type(ans).__name__, "n": nproxy, "object_has": have}, rp)
+                if judge_sess and has_sess and (len(s) != 1 or s[0].data != sess):
+                    v = getattr(ans, "session_id", None)
+                    if v not in (sess, sess.decode()):
+                        cx.witness(f"generated.session_id_dropped_entirely.{tkey}",
+                                   {"code": code, "gen": gen, "cls": type(ans).__name__, "object_has": repr(v)[:60]}, rp)
                 if (h.code, h.app, h.hbh, h.e2e) != (code, 4, int.from_bytes(wire[12:16], "big"),
                                                      int.from_bytes(wire[16:20], "big")):
                     cx.witness("generated.header_not_mirrored", {"code": code, "gen": gen}, rp)
